@@ -98,6 +98,8 @@ class Engine:
         self.inputs = {}       # name -> (kind, term/obj)
         self.tokens = {}       # token -> (value, spec)
         self.choices = []      # [(name, index)] structural choices in order
+        if not hasattr(self, "choice_offered"):
+            self.choice_offered, self.choice_seen = {}, set()   # vacuity guard: every offered option must be feasible somewhere in the shard
         self.ctx = {}
         self.memo = {}
         self.margins = []
@@ -252,6 +254,8 @@ class Engine:
                 self.pending.append(self.decisions + [alt])
         self.decisions.append(d)
         self.choices.append((name, d))
+        for k in range(len(options)):
+            self.choice_offered.setdefault((name, k), repr(options[k])[:60])
         return options[d]
 
     def concretize_int(self, term, lo=None, hi=None):
@@ -639,6 +643,8 @@ class Engine:
                     outcome = ("unknown", SolverUnknown("lazy feasibility"))
             kind = outcome[0]
             self.stats["paths"] += 1
+            for ch in self.choices:   # this structural choice led to at least one feasible, completed path
+                self.choice_seen.add(tuple(ch))
             key = {"ok": "ok", "exc": "exc", "abort": "aborted", "unsupported": "unsupported", "unknown": "unknown_paths", "nonfinite": "nonfinite"}[kind]
             self.stats[key] += 1
             if kind == "unsupported" and len(self.unknowns) < 20:
